@@ -25,11 +25,29 @@ EXPLANATION = (
     "is not such a gate: segment 0 is falsy), the record is reset on both outcomes of the segment Deferred before a "
     "callback continues the read, and nobody else resets it without cancelling the request; (8) whoever retires the "
     "node's active fetcher - _cancel_request, also through same-class helpers, and the delivery/failure handlers - "
-    "resets _active_segment and then calls _start_new_segment(), so requests queued by other reads are served.  "
-    "Undecided: outcomes of interleavings, Twisted producer/consumer flow control (the _hungry/_alive gates), a "
-    "_start_new_segment inlined into its callers.")
+    "resets _active_segment and then calls _start_new_segment(), so requests queued by other reads are served; "
+    "(2b) stopProducing cancels its handle on every path on which the handle was not seen to be unset; (3b) an assertion of "
+    "Segmentation.__init__ about offset/size/file size is no stronger than offset + size <= file size (reads up to EOF pass); "
+    "(9) every read() - DownloadNode, CiphertextFileNode, ImmutableFileNode, LiteralFileNode - returns on every path a "
+    "Deferred (never None) that fires with the caller's consumer: succeed(consumer) for the empty read, else the Deferred "
+    "of Segmentation.start(), which _fetch_next fires with self._consumer and whose callbacks hand the value on; "
+    "ImmutableFileNode reads (fresh DecryptingConsumer, offset, size) and unwraps to the consumer; (10) get_segment calls "
+    "(or schedules) the method that installs a fetcher on every path after queuing; every loop over "
+    "_extract_requests(..) hands each (Deferred, Cancel) it took out of the queue to _deliver (a request seen to be "
+    "inactive may be skipped); _deliver fires d.callback(result) on every path on which the handle was not seen inactive; "
+    "(11) the method that writes to the consumer is a success callback on the Deferred of get_segment; after it comes an "
+    "errback that re-enters the fetch route, registered on every path on which the node's segment size was not seen to be "
+    "known, with no failure-swallowing errback in between; after the write the writer (or a later success callback) "
+    "re-enters the fetch route on every path; start() enters it; resumeProducing sets again every flag that "
+    "pauseProducing clears and that gates the route (unless it saw the pause mark unset).  "
+    "Undecided: outcomes of interleavings, Twisted producer/consumer flow control beyond the pause/resume flag (the "
+    "_alive gate, _hungry/_alive after completion or stopProducing, register/unregisterProducer), a "
+    "_start_new_segment inlined into its callers, what happens to a read whose fetch fails (the _error errback, the "
+    "errback of stopProducing, the failure branch of process_blocks._deliver beyond handing the failure on), the "
+    "integrity checks of _check_ciphertext_hash (other properties), download-status bookkeeping.")
 TECHNIQUE = ("static analysis: who-may-write/call sweeps, CFG gate rules on the cancel path (inter-procedural typestate with "
-             "function summaries), in-class route gating of get_segment, normal forms of the clip and trim")
+             "function summaries), in-class route gating of get_segment, normal forms of the clip and trim, Deferred callback-chain "
+             "order and result flow, must-follow rules for start/deliver")
 
 NODE = "immutable.downloader.node:DownloadNode"
 SEG = "immutable.downloader.segmentation:Segmentation"
@@ -815,6 +833,13 @@ def callback_returns(fn, t):
     return first_positional_params(g), out
 
 
+def falls_off_end(fn):
+    """fn can finish without a return statement (and so returns None)."""
+    cfg = fn.cfg()
+    return any(lab != "exc" and not is_return(cfg.nodes[pid]) and cfg.nodes[pid].kind != "entry"
+               for (pid, lab) in cfg.pred[cfg.exit.id]) or not cfg.find(is_return)
+
+
 def passes_through(fn, t):
     ps, rets = callback_returns(fn, t)
     return bool(ps) and bool(rets) and all(x == ps[0] for x in rets)
@@ -908,7 +933,7 @@ def run_result(ctx, r):
     stc = the_call(rd, "start")
     r.site(rd, None, "read returns a Deferred that fires with the consumer")
     rets = rd.cfg().find(is_return)
-    r.require(bool(rets), rd, rd.loc(), "DownloadNode.read returns nothing")
+    r.require(not falls_off_end(rd), rd, rd.loc(), "DownloadNode.read can finish without returning the Deferred of the read")
     for n in rets:
         if n.ast.value is None or _is_none(n.ast.value):
             r.violation(rd, rd.loc(n.ast), "DownloadNode.read returns None instead of a Deferred: the caller of this read "
@@ -940,7 +965,8 @@ def run_result(ctx, r):
                   "the finished read fires its Deferred with %s, not with its consumer" % src(F, c))
     ss = Sym(idx, start_fn)
     srets = start_fn.cfg().find(is_return)
-    r.require(bool(srets), start_fn, start_fn.loc(), "Segmentation.%s returns nothing" % start_fn.name)
+    r.require(not falls_off_end(start_fn), start_fn, start_fn.loc(), "Segmentation.%s can finish without returning the Deferred "
+              "of the read" % start_fn.name)
     for n in srets:
         if n.ast.value is None:
             r.violation(start_fn, start_fn.loc(n.ast), "Segmentation.%s returns None, not the Deferred of the read" % start_fn.name)
@@ -963,7 +989,7 @@ def run_result(ctx, r):
         sy = Sym(idx, fn)
         rs = fn.cfg().find(is_return)
         r.site(fn, None, what)
-        r.require(bool(rs), fn, fn.loc(), "%s returns nothing" % short(fn))
+        r.require(not falls_off_end(fn), fn, fn.loc(), "%s can finish without returning the Deferred of the read" % short(fn))
         for n in rs:
             if n.ast.value is None or _is_none(n.ast.value):
                 r.violation(fn, fn.loc(n.ast), "%s returns None instead of a Deferred" % short(fn))
@@ -1082,13 +1108,19 @@ def run_service(ctx, r):
                         return True
                 return False
 
-            def transfer(n, lab, nxt, st, _ln=ln):
+            fnf = FlowNorm(f)
+
+            def transfer(n, lab, nxt, st, _ln=ln, _want=want, _fnf=fnf):
                 if lab == "exc":
                     return None
                 if n is _ln:
                     return 0 if lab == "iter" else None
                 if n.kind in ("exit", "raise") or delivers(n):
                     return None
+                if n.kind == "test":
+                    f_ = _fnf.edge_fact(n, lab)
+                    if f_ and f_[0] == "false" and f_[1] == _want[1] + ".active":
+                        return None     # a cancelled request: _deliver would do nothing with it either
                 return 0
             visited, parent = explore(cfg, 0, transfer, start=ln)
             r.count(len(visited))
@@ -1097,7 +1129,7 @@ def run_service(ctx, r):
                 q = cfg.nodes[nid]
                 if q is ln:
                     continue
-                if q.kind == "exit" or (not delivers(q) and any(d == ln.id and lab != "exc" for (d, lab) in cfg.succ[nid])):
+                if q.kind == "exit" or any(d == ln.id and transfer(q, lab, ln, 0) is not None for (d, lab) in cfg.succ[nid]):
                     bad = (nid, st)
                     break
             if bad is not None:
@@ -1199,6 +1231,16 @@ def run_chain(ctx, r):
         for (n, w) in find_path_from_to_avoiding(W.cfg(), lambda q: q is wn, lambda q: any(reach_refs(W, q, reach))):
             r.violation(W, W.loc(wc), "after writing a segment's bytes %s can return without asking for the next segment or "
                         "completing the read: a read never fires its Deferred (path: %s)" % (short(W), w.brief()), w)
+    # -- (e) start() enters the fetch route (nobody else does for a fresh read: the consumer only resumes after a pause)
+    rd = idx.func(NODE + ".read")
+    start_fn = ci.lookup(the_call(rd, "start").func.attr)
+    if start_fn is None:
+        raise AnchorVanished("DownloadNode.read starts the Segmentation with an unknown method")
+    r.site(start_fn, None, "start() asks for the first segment")
+    for (n, w) in find_path_avoiding(start_fn.cfg(), lambda q: q.kind == "exit", gate_node=lambda q: any(reach_refs(start_fn, q, reach)),
+                                     skip_exc_edges=True):
+        r.violation(start_fn, start_fn.loc(), "%s can return without asking for the first segment: the read never delivers a byte "
+                    "(path: %s)" % (short(start_fn), w.brief()), w)
     # -- (d) resumeProducing restores every flag that pauseProducing cleared and that gates the way to get_segment
     pp, rs = ci.lookup("pauseProducing"), ci.lookup("resumeProducing")
     if pp is None or rs is None:
@@ -1228,9 +1270,19 @@ def run_chain(ctx, r):
         if blocking is None:
             continue
         rcfg = rs.cfg()
+        rnorm = FlowNorm(rs)
         direct = {q.id for q in rcfg.nodes if reach_refs(rs, q, reach)[0]}
+        # what pauseProducing leaves behind as a mark of 'paused' (a time stamp): seeing it unset means there was no pause
+        marks = {y for q in pp.cfg().nodes for y in node_stores(q) if y.startswith("self.") and y.count(".") == 1
+                 and assign_value(q, y) is not None and not isinstance(assign_value(q, y), ast.Constant)}
+
+        def not_paused(q, lab, _n=rnorm, _m=marks):
+            f_ = _n.edge_fact(q, lab)
+            return bool(f_) and ((f_[0] == "false" and f_[1] in _m) or (f_[0] in ("is", "==") and "None" in (f_[1], f_[2])
+                                                                      and ({f_[1], f_[2]} - {"None"}) <= _m))
         for (n, w) in find_path_avoiding(rcfg, lambda q: q.kind == "exit" or q.id in direct,
-                                         gate_node=lambda q, _x=x: const_store(q, _x, True), skip_exc_edges=True):
+                                         gate_node=lambda q, _x=x: const_store(q, _x, True), gate_edge=not_paused,
+                                         skip_exc_edges=True):
             r.violation(rs, rs.loc(), "pauseProducing clears %s and %s goes on only when it is set, but resumeProducing can finish "
                         "without setting it again: a read that was paused once never delivers the rest of its slice (path: %s)"
                         % (x, short(blocking), w.brief()), w)
@@ -1287,6 +1339,8 @@ def run_clip(ctx, r):
     for (n, w) in find_path_avoiding(cfg, lambda q: q is sn, gate_edge=nonzero):
         r.violation(rd, rd.loc(n.ast), "a Segmentation can be built for a zero-length (or past-EOF) read (path: %s)" % w.brief(), w)
     for n in cfg.find(is_return):
+        if n.ast.value is None:
+            continue        # C04.9 reports a read that returns nothing
         v = s.expand(n, n.ast.value)
         if isinstance(v, ast.Call) and call_tail(v) == "succeed":
             r.require(len(v.args) == 1 and nf(v.args[0]) == rp[0], rd, rd.loc(n.ast), "an empty read returns %s, not the consumer" % nf(v))
@@ -1481,7 +1535,8 @@ def run(ctx: Context):
                   "per-read classes store only to self.* and touch the node only through get_segment", expected=5) as r:
         run_isolation(ctx, r)
     with ctx.rule("C04.2", "R3", "cancel discipline: only the cancelling request is removed, the active fetcher is stopped "
-                  "only when unwanted, requests are partitioned by segment, cancel/deliver are one-shot", expected=6) as r:
+                  "only when unwanted, requests are partitioned by segment, cancel/deliver are one-shot, stopProducing cancels whenever "
+                  "a request is outstanding", expected=7) as r:
         run_cancel(ctx, r)
     with ctx.rule("C04.3", "R1/R6", "read length clipped to max(0, min(size, filesize-offset)); None means EOF; zero-length "
                   "reads finish before a Segmentation is built", expected=2) as r:
@@ -1510,5 +1565,5 @@ def run(ctx: Context):
         run_service(ctx, r)
     with ctx.rule("C04.11", "R1/E7", "the segment Deferred of a read has the writer as success callback, then a retry errback "
                   "whenever the segment size is a guess; the writer continues the read; resumeProducing reopens the gate that "
-                  "pauseProducing closed", expected=4) as r:
+                  "pauseProducing closed; start() asks for the first segment", expected=5) as r:
         run_chain(ctx, r)
